@@ -31,6 +31,18 @@ CLAIMS = {
               "that time.Sleep sleeps; the distribution of the jitter; a counter wrap after 2^64 consecutive failures.", "DESIGN.md section 4 C08"),
  "C09": claim("Proof for all header maps and flag values that the request given to the handler chain carries exactly one user-id value equal to the proxy-asserted user when forwarding is on, and no Authorization field when stripping is on, with every other field unchanged.",
               "canonical header keys (net/http), what gorilla adds to a websocket handshake.", "DESIGN.md section 4 C09"),
+ "C07": claim("No-panic / no-exit proof on the request path: every function under contract that a request worker, the polling loop, the response forwarder, the session and banner wrappers, the websocket shim handlers and the two websocket relay goroutines execute (73 functions) is proved free of nil dereference, out-of-range index/slice, nil-map write, failed type assertion, division by zero, unlock of an unlocked mutex, send on / close of a closed channel and explicit panic for all inputs satisfying its precondition, callers are checked against those preconditions, shared maps are proved accessed under their mutex, no os.Exit / log.Fatal is reachable from a request worker, and errors from fetch / forward / upload end only that worker. Known findings (listed, genuine, reproduced): Connection.Close and SendClientMessage can send on / close a channel that a concurrent Close has closed.",
+              "panics inside library code called within its stated preconditions (net/http, gorilla, lru, ReverseProxy), data races on memory not guarded by a declared mutex, goroutine schedules, the 502 answer itself (produced by httputil.ReverseProxy's default error handler; hostProxy's configuration is not under contract), requests 'served normally afterwards' (liveness).", "DESIGN.md section 4 C07"),
+ "C10": claim("Proof on the session layer's own code: the response writer commits once, moves every backend Set-Cookie into the jar of this writer's session under the request URL (https) and removes the whole Set-Cookie field, adds the agent's session cookie only when the client presented none, with the stated attributes and expiry now+lifetime; the request handler looks the jar up under the session id of this request (LRU accessed under the cache mutex), deletes the Cookie field, re-adds the client's cookies except the session cookie in order, then all cookies the jar returns for the request URL, and calls the wrapped handler once with this session's writer; disabled tracking returns the handler unwrapped.",
+              "net/http/cookiejar semantics (trusted: SetCookies/Cookies per RFC 6265), the groupcache LRU (abstract spec), uuid uniqueness, the client seeing only headers written through this writer (net/http server), interleavings of concurrent requests beyond lock discipline.", "DESIGN.md section 4 C10"),
+ "C11": claim("Proof on the relay code: the reader goroutine queues each message read from the backend once, with the type and byte slice ReadMessage returned, in read order; the writer goroutine writes each non-nil queued client message once with its own type and bytes in queue order; ReadServerMessages returns exactly the received sequence in order with nothing dropped; the data handler forwards the posted messages in array order; SendClientMessage queues one message per call iff it reports success, keeps the type, text as JSON string / binary as one-element array, base64 only under protocol version >= 1; header injection changes only JSON objects that have resource.headers and only by adding missing keys. Known finding (listed): SendClientMessage may send on a channel closed by a concurrent Close.",
+              "channel FIFO/exactly-once delivery (Go primitive, trusted), gorilla framing, encoding/json and base64 codecs (trusted as inverse pairs; the decode side in the browser is outside Go), more than one outstanding poll.", "DESIGN.md section 4 C11"),
+ "C12": claim("Proof for all bodies and session ids that each shim handler (open, data, poll, close) writes exactly one status on every path - 200 on success, 400 for unparsable bodies and for unknown or closed sessions, 408 on poll timeout, 500 on backend failures - looks up and removes exactly the session named in the call, registers only completely constructed connections, drops a session from the table only when it is dead, that Close queues the close frame before cancelling, and that a closed-and-drained connection reports an error after the already received messages were returned. Known findings (listed, genuine, reproduced): data racing with close / double close can send on or close a closed channel (panic).",
+              "that every call terminates (liveness; blocking sends on full queues), sync.Map and gorilla internals, schedules other than through the declared shared-state relies.", "DESIGN.md section 4 C12"),
+ "C13": claim("Proof for all client-supplied URLs (the parsed URL is an arbitrary url.URL value: any scheme, opaque part, userinfo, host): the dial target is built from the constant scheme ws, the configured backend host, and only Path / RawPath / RawQuery of the client's URL, with no opaque part and no userinfo; NewConnection dials exactly the string it was given, once; the shim mux mounts only the configured shim prefix and hands every other path to the wrapped handler with the same request object.",
+              "url.URL.String() rendering (trusted: authority comes from Host only when Opaque is empty), gorilla's dialer (redirects, proxies from environment), DNS.", "DESIGN.md section 4 C13"),
+ "C14": claim("Proof for all statuses, header maps, methods and bodies on the banner path: the three predicates equal their stated definitions (GET + Accept contains text/html; 200 + some Content-Type value containing text/html (or application/xhtml+xml) + no Content-Disposition value containing attachment - loop invariants over all header values; already-framed iff Sec-Fetch-Mode is nested-navigate or Sec-Fetch-Dest is iframe or, as a fallback only, the Referer parses to this request's host and path); the response writer commits once with the backend's status, changes only Cache-Control / Date / Expires / Pragma / X-Frame-Options (and Content-Encoding when it serves the frame page) and only for frameable HTML, leaving every header of every other response untouched, writes the frame page exactly once instead of the body when framing, and otherwise passes every body chunk through with the same slice.",
+              "the shim-script splice (ShimBody's first-<head> insertion is not yet under contract), html/template rendering of the frame page (embedded URL, trusted), net/http header canonicalisation.", "DESIGN.md section 4 C14"),
  "C15": claim("Proof for all sizes and segmentations: bytes returned by Read followed by the bytes kept are exactly the buffer (or the one non-empty decoded text frame) the call started with - nothing lost, duplicated or reordered; frames are decoded only when nothing is buffered and only text frames; Write sends exactly one text frame with the hex of exactly its argument and touches none of Read's state (disjoint frames).",
               "gorilla framing, hex codec inverse pair, io.Copy, TCP, isolation between connections.", "DESIGN.md section 4 C15"),
  "C17": claim("Proof for all identities, ids and records (every handler verified for an arbitrary store state): an agent endpoint reaches the store only after checkBackendID validated the caller's OAuth identity against the backend named in the request, and then only under that validated id; a rejected caller gets exactly one 401 write and no store access; the admin API calls the backend CRUD operations only after isAdminRequest returned true (403 otherwise), isAdminRequest is true iff App Engine admin or OAuth admin; the end-user handler routes for the signed-in user's e-mail (401 when anonymous); agent paths other than the three endpoints get 404.",
